@@ -164,7 +164,7 @@ inductive Doc
   | call2 (f : String) (a b : Doc)                -- f(a, b)
   | cond (c a b : Doc)                            -- conditional operator: value `a` if `c`, else `b`
   | paren (d : Doc)
-  deriving Repr, Inhabited
+  deriving Repr, Inhabited, DecidableEq
 
 def replace1 (s from_ to : String) : String :=
   match s.splitOn from_ with
